@@ -13,6 +13,7 @@ package main
 // TLC integers are 32 bit and its JSON reader takes neither null nor non-integers, hence this shape.
 
 import (
+	"sort"
 	"encoding/json"
 	"hash/fnv"
 	"math"
@@ -151,6 +152,14 @@ type Obs struct {
 	Names []BS     `json:"names"`
 	Types []string `json:"types"`
 	Cols  [][]Cell `json:"cols"`
+	// the frame's name map as ColumnTypeMap and Contains show it (absent for error frames)
+	Tmap     []TmapEntry `json:"tmap,omitempty"`
+	Contains int         `json:"contains,omitempty"`
+}
+
+type TmapEntry struct {
+	Name BS     `json:"name"`
+	Typ  string `json:"typ"`
 }
 
 var emptyObs = Obs{Len: -2, Names: []BS{}, Types: []string{}, Cols: [][]Cell{}}
@@ -164,6 +173,26 @@ func observe(qf qframe.QFrame, viaSlice bool) Obs {
 	names := qf.ColumnNames()
 	typs := qf.ColumnTypes()
 	o := Obs{Len: qf.Len(), Names: bsList(names), Types: make([]string, len(typs)), Cols: make([][]Cell, len(names))}
+	if len(names) > 0 {
+		tm := qf.ColumnTypeMap()
+		keys := make([]string, 0, len(tm))
+		for k := range tm {
+			keys = append(keys, k)
+		}
+		sort.Strings(keys)
+		for _, k := range keys {
+			o.Tmap = append(o.Tmap, TmapEntry{Name: toBS(k), Typ: string(tm[k])})
+		}
+		o.Contains = 1
+		for _, n := range names {
+			if !qf.Contains(n) {
+				o.Contains = 2
+			}
+		}
+		if qf.Contains("no such column \x00") {
+			o.Contains = 2
+		}
+	}
 	for c, name := range names {
 		o.Types[c] = string(typs[c])
 		cells := []Cell{}
